@@ -174,8 +174,12 @@ func nonLocalSources(fn *ssa.Function, v ssa.Value) (descs []string, params []*s
 		if an.IsLocalRoot(s) {
 			continue
 		}
-		// values freshly returned by calls are owned by the caller
-		if _, isCall := s.(*ssa.Call); isCall {
+		// values freshly returned by calls are owned by the caller — for a module function
+		// this is checked: what it returns (and the containers it put inside) must be its own
+		if call, isCall := s.(*ssa.Call); isCall {
+			if g := an.StaticCallee(&call.Call); an.InModuleFn(g) && !freshResult(g, 0) {
+				descs = append(descs, "result of "+g.Name()+" (may alias shared state)")
+			}
 			continue
 		}
 		if e, isEx := s.(*ssa.Extract); isEx {
@@ -190,6 +194,79 @@ func nonLocalSources(fn *ssa.Function, v ssa.Value) (descs []string, params []*s
 		descs = append(descs, an.PathOf(s))
 	}
 	return
+}
+
+// freshResult: everything g returns is allocated by g (or by module functions it
+// calls that are fresh themselves), including containers stored as elements of a
+// returned container.
+func freshResult(g *ssa.Function, depth int) bool {
+	if depth > 2 {
+		return false
+	}
+	isContainer := func(t types.Type) bool {
+		switch t.Underlying().(type) {
+		case *types.Map, *types.Slice, *types.Pointer:
+			return true
+		}
+		return false
+	}
+	local := func(v ssa.Value) bool {
+		for _, s := range an.Sources(g, v) {
+			if an.IsLocalRoot(s) {
+				continue
+			}
+			if k, isK := s.(*ssa.Const); isK && k.Value == nil {
+				continue
+			}
+			if call, isCall := s.(*ssa.Call); isCall {
+				if b, isB := call.Call.Value.(*ssa.Builtin); isB && b.Name() == "append" {
+					continue
+				}
+				if h := an.StaticCallee(&call.Call); an.InModuleFn(h) && h != g && freshResult(h, depth+1) {
+					continue
+				}
+				if h := an.StaticCallee(&call.Call); h != nil && !an.InModuleFn(h) {
+					continue
+				}
+			}
+			return false
+		}
+		return true
+	}
+	ok := true
+	for _, rb := range an.ReturnBlocks(g) {
+		for _, rv := range an.ReturnValues(an.LastInstr(rb).(*ssa.Return)) {
+			if isContainer(rv.Type()) && !local(rv) {
+				ok = false
+			}
+		}
+	}
+	// containers put into local containers of g
+	an.Instrs(g, func(in ssa.Instruction) {
+		switch x := in.(type) {
+		case *ssa.Store:
+			if _, isIA := x.Addr.(*ssa.IndexAddr); isIA && isContainer(x.Val.Type()) && !local(x.Val) {
+				ok = false
+			}
+		case *ssa.MapUpdate:
+			if isContainer(x.Value.Type()) && !local(x.Value) {
+				if _, isLocalMap := an.Unwrap(x.Map).(*ssa.MakeMap); isLocalMap {
+					ok = false
+				}
+			}
+		case *ssa.Call:
+			if b, isB := x.Call.Value.(*ssa.Builtin); isB && b.Name() == "append" && len(x.Call.Args) == 2 {
+				if elems, okv := an.VariadicElems(x.Call.Args[1]); okv {
+					for _, e := range elems {
+						if isContainer(e.Type()) && !local(e) {
+							ok = false
+						}
+					}
+				}
+			}
+		}
+	})
+	return ok
 }
 
 type mutation struct {
